@@ -127,6 +127,31 @@ def run(tier, seed, build=True):
                               {"engine": "E-SCHED", "config": name, "args": cfg.args, "sources": cfg.sources,
                                "files": {fn: common.b64(data) for fn, data in files}, "choices": choices,
                                "expected_stdout": common.b64(expected)})
+            # worker-vs-worker shared state: the lazily compiled pattern cells (OnceCell) are global to all workers. With the
+            # instrumented once_cell every access to a not-yet-initialised cell is a scheduling point; non-preemptive default
+            # policy, all schedules with <= 2 preemptions.
+            if name in ("text2",) or (tier == "thorough" and name == "mixed"):
+                cfg_o = sched.Config(name + "+once", cfg.workdir, cfg.args, cfg.sources, policy="sticky", once=True)
+                xo = cfg_o.run([])
+                if xo.trace is None or xo.out != expected:
+                    raise common.MachineryError("once-mode default schedule of %s is broken: %r" % (name, xo.err[-200:]))
+                try:
+                    st3, viols3 = sched.explore(cfg_o, judge, mode="dev", max_dev=2 if tier == "quick" else 3, max_execs=budget[0], max_wall=budget[1])
+                except common.MachineryError as e:
+                    res.machinery.append(str(e))
+                    st3, viols3 = None, []
+                if st3:
+                    common.log("[C06] %-6s once dev<=2: %s" % (name, st3.as_dict()))
+                    per_cfg[name]["oncecell_points dev<=%d" % (2 if tier == "quick" else 3)] = st3.as_dict()
+                    tot_trans += st3.transitions
+                    tot_exec += st3.executions
+                    res.count(st3.executions)
+                    if not st3.exhausted:
+                        res.cap("%s once: %s" % (name, st3.cap))
+                    for feats, what, choices in viols3:
+                        res.violation(dict(feats, config=name, mode="oncecell"), "%s [config %s, scheduling points at uninitialised OnceCells]" % (what, name),
+                                      {"engine": "E-SCHED", "config": name, "args": cfg.args, "sources": cfg.sources, "once": True, "policy": "sticky",
+                                       "files": {fn: common.b64(data) for fn, data in files}, "choices": choices, "expected_stdout": common.b64(expected)})
             res.sample({"config": name, "argv": cfg.args, "default_schedule_events": x0.trace.get("events"),
                         "decisions_in_default_schedule": len(x0.trace.get("decisions", []))})
     finally:
@@ -156,7 +181,8 @@ def replay(path, build=True):
         os.makedirs(d)
         for fn, b in r["files"].items():
             common.write_file(os.path.join(d, fn), base64.b64decode(b))
-        cfg = sched.Config("replay", d, r["args"], r["sources"], sigint=r.get("sigint", False), hooks=r.get("hooks", False), postops=r.get("postops", False))
+        cfg = sched.Config("replay", d, r["args"], r["sources"], sigint=r.get("sigint", False), hooks=r.get("hooks", False), postops=r.get("postops", False),
+                           once=r.get("once", False), policy=r.get("policy"))
         x1 = cfg.run(r["choices"])
         x2 = cfg.run(r["choices"])
         if (x1.trace is None) != (x2.trace is None) or (x1.trace and sched.trace_key(x1.trace) != sched.trace_key(x2.trace)) or x1.out != x2.out:
